@@ -1,4 +1,4 @@
 // harness TU for SE_2_3 (double)
 #define HX_HAS_ROTATION 1
 #include "generic.h"
-namespace hx { void run_SE_2_3(const Req& r, Resp& R) { run<manif::SE_2_3d>(r, R); } }
+namespace hx { void run_SE_2_3(const Req& r, Resp& R) { run<manif::SE_2_3<HX_SC>>(r, R); } }
